@@ -1,11 +1,9 @@
-\* exhaustive: TA + 2 points in 2 rsync modules, no rpkiNotify, RRDP off (what the replay realises), 3 manifest versions,
-\* 3 runs, 1 environment step before each run, 1 expiry, update/initial runs, every set of unreachable modules, dirty on/off,
-\* corrupted TA point (failed run), both clock cases for LastAttempt records
+\* thorough: CA certificates with and without rpkiNotify (RRDP off: stored under stored/rrdp, fetched by rsync), 3 runs, 1 step per gap
 SPECIFICATION Spec
 CONSTANTS
   NPoints = 2
   Modules = {"m1", "m2"}
-  Transports = {FALSE}
+  Transports = {FALSE, TRUE}
   Rrdp = FALSE
   MaxVer = 3
   MaxRuns = 3
